@@ -481,6 +481,12 @@ func (d *Driver) handleWriteCommands(devName string, p protocolMap, reqs []dsMod
 	}
 
 	if reqData != nil {
+		// A nil parameter value marshals to JSON null, which unmarshals into any
+		// target without error and would send an empty message.
+		if string(reqData) == "null" {
+			return fmt.Errorf("missing value for resource %q", reqs[0].DeviceResourceName)
+		}
+
 		if dataTarget != nil {
 			if err := json.Unmarshal(reqData, dataTarget); err != nil {
 				return fmt.Errorf("failed to unmarshal request: %w", err)
